@@ -4,10 +4,12 @@
    code is the right one: flipping an edge whose opposite apex is strictly inside the circumcircle yields two
    counter-clockwise faces and a strictly locally Delaunay edge, not flipping is legal otherwise; (iii) the argument order
    in which the source calls robust::incircle is justified.  NOT proved (classical theory, stated in DESIGN.md):
-   preservation of local Delaunayhood by whole insert/remove, and local => global (Delaunay lemma); the global
+   preservation of local Delaunayhood by whole insert/remove, and local => global (Delaunay lemma); termination of Lawson flipping IS
+   proved on the geometric level (iv: every flip lowers the lifted-paraboloid potential by the in-circle determinant); the global
    statement is therefore decided per implementation state by C01_checker_is_spec's checker. *)
 From Coq Require Import ZArith List Bool Arith Lia.
-From SpadeV Require Import Geom.Pred Geom.Lemmas Obs.State Obs.Spec Obs.SpecProp Obs.SpecProofs Dcel.Raw Dcel.WfCore Gen.DcelOps Tri.Legalize Tri.LegalizeProofs.
+From SpadeV Require Import Geom.Pred Geom.Lemmas Geom.Potential Obs.State Obs.Spec Obs.SpecProp Obs.SpecProofs Dcel.Raw Dcel.WfCore Gen.DcelOps Tri.Legalize Tri.LegalizeProofs.
+Import ListNotations.
 Local Open Scope Z_scope.
 
 Theorem C01_checker_is_spec : forall s pts, delaunay_b s pts = true <-> Delaunay s pts.
@@ -35,6 +37,28 @@ Example C01_flip_instance :
   let a := (0, 0) in let b := (4, 0) in let c := (2, 1) in let d := (2, -1) in
   0 < orient a b c /\ 0 < orient b a d /\ 0 < incircle a b c d.
 Proof. vm_compute. repeat split; reflexivity. Qed.
+
+(* (iv) termination of Lawson flipping, for every point set: a flip taken under the code's condition (apex strictly inside the
+   circumcircle) lowers the integer potential  sum over faces of orient(a,b,c) * (|a|^2+|b|^2+|c|^2)  by exactly incircle a b c d >= 1,
+   counter-clockwise faces stay counter-clockwise and their potential is never negative; so no flip sequence from a face set l is
+   longer than pot l.  (The link of this bound to the fuel of the executable legalize model is not proved: the model theorems
+   keep the hypothesis `legalize ... = Some _`, and a non-terminating legalize_edge is reported as a hang by the harness watchdog.) *)
+Theorem C01_flip_lowers_potential_by_incircle : forall a b c d : pnt,
+  tri_pot (a, d, c) + tri_pot (d, b, c) - (tri_pot (a, b, c) + tri_pot (b, a, d)) = - incircle a b c d.
+Proof. exact flip_pot_identity. Qed.
+
+Theorem C01_lawson_flipping_terminates : forall n l l', AllCcw l -> lawson_steps n l l' ->
+  AllCcw l' /\ 0 <= pot l' /\ Z.of_nat n <= pot l - pot l' /\ Z.of_nat n <= pot l.
+Proof. exact lawson_flips_bounded. Qed.
+
+Example C01_lawson_step_instance :
+  let a := (0, 0) in let b := (4, 0) in let c := (2, 1) in let d := (2, -1) in
+  lawson_step [(a, b, c); (b, a, d)] [(a, d, c); (d, b, c)] /\ AllCcw [(a, b, c); (b, a, d)]
+  /\ pot [(a, b, c); (b, a, d)] - pot [(a, d, c); (d, b, c)] = incircle a b c d.
+Proof. exact lawson_step_instance. Qed.
+Print Assumptions C01_flip_lowers_potential_by_incircle.
+Print Assumptions C01_lawson_flipping_terminates.
+
 
 Local Close Scope Z_scope.
 (* ---- the legalization loop (model of TriangulationExt::legalize_edge over the GENERATED flip_cw; tied to the code by
